@@ -1153,9 +1153,9 @@ Proof.
 Qed.
 
 Theorem whole_script_meets_spec fs i ops c0 :
-  start fs i = Ok c0 -> spec (model_case fs i ops) = true.
+  start fs i = Ok c0 -> spec_loads (model_case fs i ops) = true.
 Proof.
-  intros Hs. unfold spec, model_case, ops_run. cbn [c_fs c_init c_ops c_obs c_mids].
+  intros Hs. unfold spec_loads, model_case, ops_run. cbn [c_fs c_init c_ops c_obs c_mids].
   apply andb_true_iff. split.
   - rewrite model_out_exec, Hs. unfold model_mids. cbn [c_fs c_init c_ops]. rewrite Hs.
     destruct (exec fs c0 ops) as [cf|e] eqn:E.
@@ -1180,11 +1180,11 @@ Proof. exact (start_fail_ok fs i e). Qed.
 (** The constructor raised on an unreadable system / user file: the record of
     ANY script is accepted (no call of the script ran). *)
 Theorem constructor_io_failure_any_script fs i ops e :
-  exec fs (b0 i) (init_ops i) = Err e -> spec (model_case fs i ops) = true.
+  exec fs (b0 i) (init_ops i) = Err e -> spec_loads (model_case fs i ops) = true.
 Proof.
   intros E. destruct (start_io_fail_any fs i e E) as [-> Hun].
   assert (Hs : start fs i = Err EOther) by (rewrite start_eq, E; reflexivity).
-  unfold spec, model_case, ops_run, model_mids. cbn [c_fs c_init c_ops c_obs c_mids].
+  unfold spec_loads, model_case, ops_run, model_mids. cbn [c_fs c_init c_ops c_obs c_mids].
   rewrite model_out_exec, Hs. cbn [List.length map spec_mids].
   assert (T : forall l, spec_mids fs i [] l [] = true) by (intros l; destruct l; reflexivity).
   rewrite T, andb_true_r, spec_ok_unfold.
